@@ -12,7 +12,7 @@ timestamps the signature issued last.
 import warnings
 
 from .. import certlife
-from ..common import import_pgpy
+from ..common import MachineryError, import_pgpy
 
 
 def run(ctx):
@@ -26,6 +26,17 @@ def run(ctx):
         ops = [e['act']['op'] for e in tr[:step]]
         hist = [(e['act']['op'], e['act']['a'], e['act']['tag']) for e in tr[:step]]
         ctx.violation(clause, 'last-op=%s view=%s%s' % (ops[-1], vw, ' same-second' if clause == 'C15.tie' else ''), {'history': hist, 'view': vw, 'exc': tr[step - 1].get('exc')})
+    # keys that ARRIVE from elsewhere (independent encoder: non-minimal subpacket lengths, local signatures, a latin-1 identity, an
+    # unreadable component in between): the public twin and a copy must carry the same signatures on the same components, octet for octet
+    # (Trace_Split Assoc / AssocExported - the association rule of C14 applied to the derived public key)
+    from . import c14 as _c14
+    aev = [e for e in _c14.assoc_events(ctx) if e['label'].split(' ')[0] in ('plain', 'five-octet-subpacket-lengths', 'latin1-uid', 'local-signatures', 'v5-subkey-between')]
+    arej = ctx.judge('Trace_Split', aev)
+    ctx.traces += len(aev) - len(arej)
+    for idx, clause in [(r[0], r[1]) for r in arej]:
+        if clause.startswith('harness'):
+            raise MachineryError('TLC rejected the harness claims about a foreign key: %s' % aev[idx]['label'])
+        ctx.violation('C15.twin', 'foreign key: %s (%s)' % (aev[idx]['label'], clause), {'label': aev[idx]['label'], 'clause': clause})
     return ctx.finish(level='model_checking',
                       rule='every enabled history of Cert.tla over 27 actions to depth 2 + 260 of depth 3 (quick) / depth 3 + 3000 of depth 4 (thorough), observed at the end; '
                            'TLC-simulated walks of depth 12 observed after every step; 4 views per observation',
